@@ -523,6 +523,10 @@ def intrinsic (d : Dialect) (name : String) (args : List Val) : CM Val := do
       | .i32 a => pure (.i32 (flbS a)) | .u32 a => pure (.u32 (flbU a)) | _ => throw (.stuck "firstbithigh operand")) x
   -- MSL
   | .msl, "select", [f, t, c] => selectVal f t c
+  -- packed 8-bit vectors: the conversion of each component to (u)char keeps its low byte
+  | .msl, "packed_uchar4", [.vec [a, b, c, d]] | .msl, "packed_char4", [.vec [a, b, c, d]] => do
+    let lo (v : Val) : CM Val := match wOf v with | some w => pure (.u32 (w &&& 0xFF#32)) | none => throw (.stuck (name ++ " operand"))
+    pure (.comp [← lo a, ← lo b, ← lo c, ← lo d])
   | .msl, "popcount", [x] => bitFn popc none x
   | .msl, "reverse_bits", [x] => bitFn reverseBitsW none x
   | .msl, "clz", [x] => bitFn (fun w => BitVec.ofNat 32 (clzW w)) none x
@@ -726,7 +730,15 @@ mutual
         -- templated conversion operator yields T{}); the all-zero pattern reinterprets to the zero of T
         if isDflt v then pure (← opt (zeroOf env ty) "zero value of the as_type target", st) else
         match ty with
-        | .s s => if isScalar v then pure (← bitcastTo s v, st) else throw (.stuck "as_type size mismatch")
+        | .s s =>
+          if isScalar v then pure (← bitcastTo s v, st) else
+          -- `as_type<uint>(packed_uchar4(v))` / `packed_char4`: four bytes, component 0 lowest (MSL packed vector layout)
+          match v with
+          | .comp [.u32 a, .u32 b, .u32 c, .u32 d] =>
+            if a < 256#32 && b < 256#32 && c < 256#32 && d < 256#32 then
+              pure (← bitcastTo s (.u32 (a ||| (b <<< 8) ||| (c <<< 16) ||| (d <<< 24))), st)
+            else throw (.stuck "as_type size mismatch")
+          | _ => throw (.stuck "as_type size mismatch")
         | .vec n s => match v with
           | .vec xs => if xs.length = n then pure (← bitcastTo s v, st) else throw (.stuck "as_type size mismatch")
           | _ => throw (.stuck "as_type size mismatch")
